@@ -1270,6 +1270,21 @@ def oracle(case, out):
 
 def stats(case, out, acc, prefix="tcploop"):
     bump(acc, prefix + ":cases")
+    if any(op.startswith("sleep ") and op[6:].isdigit() and 5000 <= int(op[6:]) <= 10000 for op in case):
+        # which exit path the long hold is about (f-round: all of them in every quick run)
+        path = ("error" if any(op.startswith("drop_rx") for op in case) else
+                "force_close" if any(op.startswith("force_close") for op in case) else
+                "remote_close" if "remote_close" in case else "remote_goaway" if "remote_goaway" in case else "idle")
+        bump(acc, f"{prefix}:long-hold:{path}:" + ("mgr" if "pause m" in case else "proto"))
+    if len(case) > 3 and case[1].startswith("pause ") and case[2].startswith("fill ") and case[1][6:] == case[2][5:] \
+            and case[1][6:].isdigit() and case[3].startswith(("remote_open", "local_open", "drop_rx")):
+        bump(acc, prefix + ":substream-negotiated-while-full")
+        j = case[1][6:]
+        for o in out:
+            d = parse(o)
+            if d and any(m in ("Oi", "Oo") for m in d["p"].get(int(j), [])) and "C" in d["p"].get(int(j), []):
+                bump(acc, prefix + ":substream-then-close-in-one-drain")
+                break
     for op, o in zip(case, out):
         t = op.split()[0]
         bump(acc, f"{prefix}:op:{t}")
